@@ -42,6 +42,13 @@ def _item(it) -> str:
 
 
 def spec_term(case, ob) -> str:
+    inner = _spec_term(case, ob)
+    if case.get("must_assemble"):
+        return f"(SAnd SAccept {inner})"
+    return inner
+
+
+def _spec_term(case, ob) -> str:
     sp = case.get("spec") or {"t": "none"}
     t = sp["t"]
     if t == "none":
@@ -278,3 +285,11 @@ def prog_case(rng, kind, rom=None, features=None, n_stmts=None, spec=None, trace
     if trace:
         c["trace"] = True
     return c, tree
+
+
+def mark_must_assemble(cases, kinds):
+    """Hand-written families whose every program is valid: the oracle also demands that they assemble (SAccept)."""
+    for c in cases:
+        if str(c.get("kind")).split(":")[0] in kinds:
+            c["must_assemble"] = True
+    return cases
